@@ -127,4 +127,55 @@ def showSigned (v : Int) : List Nat := numText v
 def showUnsigned (v uMax : Nat) : List Nat := if v = uMax then [117, 109, 97, 120] else numText v
 def showBool (b : Bool) : List Nat := if b then [116, 114, 117, 101] else [102, 97, 108, 115, 101]
 
+/-! ### composites (potassco/string_convert.h:160-236)
+  An element parser is `List Nat → Option (α × Nat)`: the value and the number of characters used; `none` = nothing converted
+  (the reported end position is then the start, as `parsed(0, x, errPos)` does). -/
+
+/-- `xconvert(const char*, std::pair<T,U>&, errPos, sep)`: `T[,U]` optionally in parentheses.
+    returns (number of members converted, the pair — members the text does not give keep their old value —, end position). -/
+def parsePair {α β : Type} (pT : List Nat → Option (α × Nat)) (pU : List Nat → Option (β × Nat)) (sep : Nat) (x : List Nat) (old : α × β) :
+    Nat × (α × β) × Nat :=
+  let ps : Nat := if x.head? = some 40 then 1 else 0
+  let rT := pT (x.drop ps)
+  let tokT := rT.isSome
+  let tf : α := match rT with | some (v, _) => v | none => old.1
+  let e1 : Nat := match rT with | some (_, u) => ps + u | none => ps
+  let n1 := x.drop e1
+  let tryU := tokT && n1.head? = some sep && !(n1.drop 1).isEmpty
+  let rU := if tryU then pU (n1.drop 1) else none
+  let tokU := rU.isSome
+  let ts : β := match rU with | some (v, _) => v | none => old.2
+  let e2 : Nat := if tryU then (match rU with | some (_, u) => e1 + 1 + u | none => e1 + 1) else e1
+  if ps = 0 ∨ (x.drop e2).head? = some 41 then
+    let e3 := e2 + ps
+    let sum : Nat := (if tokU then 1 else 0) + (if tokU ∨ (x.drop e3).isEmpty then 1 else 0)
+    if sum = 0 then (0, old, 0)
+    else (sum, (if tokU ∨ (x.drop e3).isEmpty then tf else old.1, if tokU then ts else old.2), e3)
+  else (0, old, 0)
+
+def showPair {α β : Type} (sT : α → List Nat) (sU : β → List Nat) (sep : Nat) (v : α × β) : List Nat := sT v.1 ++ sep :: sU v.2
+
+/-- the loop of `convert_seq`: fuel = characters + 1 (every further round consumes a separator) -/
+def parseSeqLoop {α : Type} (pT : List Nat → Option (α × Nat)) (sep : Nat) : Nat → List Nat → Nat → List α → (List α × Nat)
+  | 0, _, pos, acc => (acc, pos)
+  | f + 1, x, pos, acc =>
+    match pT (x.drop pos) with
+    | none => (acc, pos)
+    | some (v, u) =>
+      let n := x.drop (pos + u)
+      if n.isEmpty || n.head? != some sep || (n.drop 1).isEmpty then (acc ++ [v], pos + u)
+      else parseSeqLoop pT sep f x (pos + u + 1) (acc ++ [v])
+
+/-- `convert_seq` / `xconvert(const char*, std::vector<T>&)`: `T1[,…,Tn]` optionally in brackets; returns the elements converted
+    (they are appended even when the closing bracket is missing) and the end position (0 then). -/
+def parseSeq {α : Type} (pT : List Nat → Option (α × Nat)) (sep : Nat) (x : List Nat) : List α × Nat :=
+  let b : Nat := if x.head? = some 91 then 1 else 0
+  let r := parseSeqLoop pT sep (x.length + 1) x b []
+  if b = 0 ∨ (x.drop r.2).head? = some 93 then (r.1, r.2 + b) else (r.1, 0)
+
+def showSeq {α : Type} (sT : α → List Nat) (sep : Nat) : List α → List Nat
+  | [] => []
+  | [v] => sT v
+  | v :: r => sT v ++ sep :: showSeq sT sep r
+
 end PotasscoVerif.StringConvert
